@@ -63,7 +63,16 @@ pub fn plan(tree: &Value, r: &mut Rng, exhaustive: bool, skip_indices: bool) -> 
     let sh = shape(tree);
     let keep = |p: &Path| !(skip_indices && component(p).contains("query_round_proofs/indices"));
     let leaves: Vec<Path> = sh.leaves.iter().filter(|p| keep(p)).cloned().collect();
-    let positions = if exhaustive { leaves.clone() } else { stratified(&leaves, r, 2) };
+    // exhaustive = every element position; trees with more than 40 000 positions (Keccak digests are 25 positions each)
+    // get a dense stratified sample instead (first, last and 40 random positions per component): the fault list of a
+    // 500 000-position tree alone took gigabytes
+    let positions = if exhaustive && leaves.len() <= 40_000 {
+        leaves.clone()
+    } else if exhaustive {
+        stratified(&leaves, r, 40)
+    } else {
+        stratified(&leaves, r, 2)
+    };
     let mut out = Vec::new();
     for p in positions {
         if exhaustive {
